@@ -39,7 +39,7 @@ class FnSpec:
     def __init__(self, qual, params=None, returns=None, requires=(), ensures=(), raises=None,
                  modifies=(), loops=None, ghost_entry=(), ghost_exit=(), inline=False,
                  pure=False, lets=None, on_raise=(), properties=(), trusted=False, note=None,
-                 locals=None, decreases=None, opaque_result=False, call_inline=False):
+                 locals=None, decreases=None, opaque_result=False, call_inline=False, cases=None, lemmas=()):
         self.qual = qual
         self.params = {k: ty.parse_type(v) for k, v in (params or {}).items()}
         self.returns = ty.parse_type(returns) if returns else None
@@ -54,6 +54,8 @@ class FnSpec:
         self.ghost_entry = [parse_stmts(s) for s in ghost_entry]
         self.ghost_exit = [parse_stmts(s) for s in ghost_exit]
         self.inline = inline
+        self.cases = cases or [{}]          # parameter bindings to Python constants: one verification per case
+        self.lemmas = list(lemmas)          # names of proved lemmas assumed in this function's queries
         self.call_inline = call_inline     # verified against its contract, but inlined at call sites (dimension-generic helpers)
         self.pure = pure
         self.lets = lets or {}
@@ -74,6 +76,7 @@ class Registry:
         self.lemmas = []       # (name, hyps, goal)     -- proved once, then usable
         self.sorts = set()
         self.ufuncs = {}       # name -> (argtypes, rettype)
+        self.defs = {}         # name -> (params, body ast, src): defined spec functions
         self.notes = []
 
     def cls(self, name):
@@ -103,7 +106,9 @@ def sort(name):
     REG.sorts.add(name)
 
 
-def klass(qual, fields=None, ghost=None, bases=(), value=False):
+def klass(qual, fields=None, ghost=None, bases=(), value=False, real=None):
+    """`real`: the repository class whose methods this spec class uses (several spec classes may type
+    the same generic real class differently, e.g. DataContainer of vertices / of faces)"""
     name = qual.split('.')[-1]
     if value:
         ty.declare_value_class(name, fields)
@@ -112,6 +117,7 @@ def klass(qual, fields=None, ghost=None, bases=(), value=False):
     c = ClassSpec(qual, {}, {}, bases, value)
     REG.classes[qual] = c
     REG.class_by_name[name] = c
+    c.real = real or qual
     c.fields = {k: ty.parse_type(v) for k, v in (fields or {}).items()}
     c.ghost = {k: ty.parse_type(v) for k, v in (ghost or {}).items()}
     return c
@@ -134,6 +140,21 @@ def axiom(name, body, vars=None):
     e = parse_expr(body)
     uses = {n.func.id for n in ast.walk(e) if isinstance(n, ast.Call) and isinstance(n.func, ast.Name) and n.func.id in REG.ufuncs}
     REG.axioms.append((name, {k: ty.parse_type(v) for k, v in (vars or {}).items()}, e, body, uses))
+
+
+def define(name, params, argtypes, rettype, body):
+    """a spec function with a body.  In queries it is an *uninterpreted* symbol plus its defining equation
+    (triggered on applications), so that quantified reasoning is E-matching over applications while arithmetic
+    facts stay ground; lemmas about it are proved once with the definition expanded."""
+    names = [p.strip() for p in params.split(',') if p.strip()]
+    REG.ufuncs[name] = ([ty.parse_type(a) for a in argtypes], ty.parse_type(rettype))
+    REG.defs[name] = (names, parse_expr(body), body)
+
+
+def lemma(name, body, vars=None, hyps=()):
+    """a mathematical fact proved once per run (its own obligation) and then available to functions that
+    list it in `lemmas=`; unlike an axiom it adds nothing to the trusted base"""
+    REG.lemmas.append((name, {k: ty.parse_type(v) for k, v in (vars or {}).items()}, parse_expr(body), body))
 
 
 def fn(qual, **kw):
